@@ -89,7 +89,7 @@ var fuzzNames = []string{"ptrs", "pstrs", "pstructs", "anyptrs", "mptr", "parr",
 	"arr", "strs", "ints", "m", "e", "s", "u", "n", "z", "f", "t", "nl", "long", "nested", "undefined", "forloop", "st.A", "st.C", "pst.D.k", "st.E.B", "st.nm", "st.Method",
 	"st.priv", "ms.k", "ms[2]", "mik[1]", "arr[4][0]", "arr[-1]", "arr[99]", "nested.a.b[0].c", "m.size", "m.first", "arr.first", "arr.last.x", "s.size", "n.size", "by.size",
 	"tm.Year", "dr.A", "drdr.first", "u64", "pn", "mnk", "mnk.k", "mnk['k']", "amnk", "amnk | sort: 'k'", "amnk | map: 'k'", "msw", "msw[one]", "msw[m]", "msw.k", "one", "nstr", "nstr.size", "nstr | size", "emb.X", "pemb.X", "emb.Y", "nint", "nbool", "nflt", "nslice", "nslice.first", "nmap", "nmap.k",
-	"(0..9223372036854775807)", "(-9223372036854775807..9223372036854775807)", "(9223372036854775806..9223372036854775807)", "(1..n)", "(n..1)", "(1..3)", "(f..t)", "(1..100000)"}
+	"(9223372036854775806..9223372036854775807)", "(1..n)", "(n..1)", "(1..3)", "(f..t)", "(1..100000)"}
 var fuzzLits = []string{"'k'", "1", "-1", "0", "2.5", "99999999999999999999", "1.5e3", "'a'", "\"b\"", "''", "nil", "true", "false", "empty", "blank", "-0", "00012", "1..2", "'%Y'", "'$1'", "100000", "-99999999999"}
 var fuzzFilterNames = []string{"compact", "reverse", "first", "last", "uniq", "abs", "ceil", "floor", "size", "escape", "newline_to_br", "strip_html", "strip_newlines",
 	"strip", "lstrip", "rstrip", "url_encode", "url_decode", "json", "inspect", "type", "default", "concat", "join", "map", "sort", "sort_natural", "modulo", "minus",
@@ -336,6 +336,20 @@ func genScaling(r *rand.Rand, i int) J {
 	recvs := []string{"(1..100000)", "bigints", "bigsame", "bigstrs", "bigtext", "bigmaps"}
 	filters := fuzzFilterNames
 	n := len(recvs) * len(filters)
+	// ranges too long ever to be walked: whatever takes a few items of them, or none, still comes back (walking them
+	// whole is allowed to take its time: that is "proportional to the ranges the template spells out")
+	huge := []string{
+		"{{ (0..9223372036854775807) | first }}", "{{ (0..9223372036854775807) | size }}", "{{ (0..9223372036854775807) | last }}", "{{ (0..9223372036854775807) | join }}",
+		"{{ (-9223372036854775807..9223372036854775807) | size }}", "{{ (-9223372036854775807..9223372036854775807) | reverse | first }}",
+		"{% for i in (0..9223372036854775807) limit:2 %}{{ i }}{% endfor %}", "{% for i in (0..9223372036854775807) offset:5 limit:2 %}{{ i }}{% endfor %}",
+		"{% for i in (0..9223372036854775807) reversed limit:2 %}{{ i }}{% endfor %}", "{% for i in (-9223372036854775807..9223372036854775807) limit:1 %}{{ forloop.length }}{% endfor %}",
+		"{% tablerow i in (0..9223372036854775807) limit:3 cols:2 %}{{ i }}{% endtablerow %}", "{% for i in (0..9223372036854775807) %}{% break %}{% endfor %}",
+		"{% assign r = (0..9223372036854775807) %}{{ r.first }}{{ r.size }}{{ r[5] }}", "{% if (0..9223372036854775807) contains 7 %}y{% endif %}",
+		"{{ (0..9223372036854775807) }}X", "{% assign r = (0..9223372036854775807) %}{% if r == r %}eq{% endif %}",
+	}
+	if i >= 3*n {
+		return J{"kind": "render", "src": bs(huge[(i-3*n)%len(huge)]), "env": []any{}, "nospec": true, "tm": "TraceC01"}
+	}
 	var src string
 	switch {
 	case i < n:
